@@ -1532,8 +1532,12 @@ func (i *InvoiceRegistry) cancelInvoiceImpl(ctx context.Context,
 	i.notifyClients(payHash, invoice, nil)
 
 	// Attempt to also delete the invoice if requested through the registry
-	// config.
-	if i.cfg.GcCanceledInvoicesOnTheFly {
+	// config. An invoice that recorded htlcs is kept: those records are the
+	// only means to recognize a replayed htlc and to give it the verdict it
+	// got the first time. Without them the replay of a canceled keysend or
+	// spontaneous AMP htlc would re-create the invoice and be accepted as
+	// a new payment.
+	if i.cfg.GcCanceledInvoicesOnTheFly && len(invoice.Htlcs) == 0 {
 		// Assemble the delete reference and attempt to delete through
 		// the invocice from the DB.
 		deleteRef := InvoiceDeleteRef{
